@@ -2,3 +2,5 @@ import GoProbeModel.Base.Wire
 import GoProbeModel.Base.Outcome
 import GoProbeModel.Props.C13
 import GoProbeModel.Props.C22
+import GoProbeModel.Props.C01
+import GoProbeModel.Props.C16
